@@ -201,6 +201,50 @@ mut("c19-counts-not-cleared", "C19", B, """                self.samples.clear();
 mut("c19-double-after-freeze", "C19", B, "current_mode = BenchMode::Collect { sample_size };", "current_mode = BenchMode::Collect { sample_size: if sample_size == 64 { 128 } else { sample_size } };")
 mut("c19-fastest-thread", "C19", B, "raw_samples.iter().max_by_key(|s| s.duration()).unwrap();", "raw_samples.iter().min_by_key(|s| s.duration()).unwrap();")
 
+# ---- C06 / C07
+P = "src/util/thread/pool.rs"
+mut("c06-release-to-relaxed", "C06", P, ".fetch_sub(1, Ordering::Release)", ".fetch_sub(1, Ordering::Relaxed)")
+mut("c06-acquire-to-relaxed", "C06", P, "ref_count.load(Ordering::Acquire) > 0", "ref_count.load(Ordering::Relaxed) > 0")
+mut("c06-clone-after-decrement", "C06,C07", P, """                        let main_thread =
+                            task.shared.as_ref().main_thread.clone();
+
+                        if task
+                            .shared
+                            .as_ref()
+                            .ref_count
+                            .fetch_sub(1, Ordering::Release)
+                            == 1
+                        {
+                            main_thread.unpark();
+                        }""", """                        if task
+                            .shared
+                            .as_ref()
+                            .ref_count
+                            .fetch_sub(1, Ordering::Release)
+                            == 1
+                        {
+                            task.shared.as_ref().main_thread.clone().unpark();
+                        }""")
+mut("c06-send-to-all-threads", "C06,C07", P, "for thread in &threads[..aux_threads] {", "for thread in &threads[..] {")
+mut("c06-par-extend-wrong-slot", "C06", P, "ptr.add(index).write(Some(task(index)));", "ptr.add(if index == 3 { 2 } else { index }).write(Some(task(index)));")
+mut("c06-no-wait", "C06,C07", P, """        while task.shared.as_ref().ref_count.load(Ordering::Acquire) > 0 {
+            std::thread::park();
+        }""", """        if task.shared.as_ref().ref_count.load(Ordering::Acquire) > 0 {
+            std::thread::park();
+        }""")
+mut("c07-unpark-off-by-one", "C07", P, """                            .fetch_sub(1, Ordering::Release)
+                            == 1""", """                            .fetch_sub(1, Ordering::Release)
+                            == 0""")
+mut("c07-worker-breaks-after-first", "C07,C06", P, """                    drop(result);
+                }
+
+                std::mem::forget(panic_guard);""", """                    drop(result);
+                    if thread_id == 3 { break; }
+                }
+
+                std::mem::forget(panic_guard);""")
+mut("c07-spawn-always", "C06", P, "NonZeroUsize::new(aux_threads.saturating_sub(threads.len()))", "NonZeroUsize::new(if threads.len() == 2 { 1 } else { aux_threads.saturating_sub(threads.len()) })")
+
 def sh(cmd, **kw):
     return subprocess.run(cmd, shell=True, capture_output=True, text=True, **kw)
 
